@@ -151,7 +151,7 @@ SCOPE_TEMPLATES = [
     ("nonlocal-skip-level", "def a():\n    x = 1\n    def b():\n        def c():\n            nonlocal x\n            x = x * 3\n        c()\n        return x\n    return [b(), x]\nR = a()\n"),
     ("param-closure", "def adder(n):\n    def add(m):\n        return n + m\n    return add\nR = [adder(1)(2), adder(10)(5)]\n"),
     ("class-named-instance", "class P:\n    cnt = 0\n    def __init__(self, v):\n        self.v = v\n        P.cnt += 1\n    def get(self, k=1):\n        return self.v * k\np1 = P(2)\np2 = P(3)\nR = [p1.get(), p2.get(k=4), P.cnt]\n"),
-    ("class-basic", "class P:\n    cnt = 0\n    def __init__(self, v):\n        self.v = v\n        P.cnt += 1\n    def get(self, k=1):\n        return self.v * k\nR = [P(2).get(), P(3).get(k=4), P.cnt]\n", "method-on-temporary"),
+    ("class-basic", "class P:\n    cnt = 0\n    def __init__(self, v):\n        self.v = v\n        P.cnt += 1\n    def get(self, k=1):\n        return self.v * k\nR = [P(2).get(), P(3).get(k=4), P.cnt]\n"),
     ("class-method-closure", "def mk(n):\n    class C:\n        def m(self):\n            return n\n    return C()\nc1 = mk(5)\nR = c1.m()\n"),
     ("class-inherit", "class A:\n    def f(self):\n        return 'A'\n    def g(self):\n        return self.f()\nclass B(A):\n    def f(self):\n        return 'B'\na1 = A()\nb1 = B()\nR = [a1.g(), b1.g(), isinstance(b1, A)]\n"),
     ("kwonly-required", "def f(a, *, k):\n    return (a, k)\ntry:\n    R = f(1)\nexcept TypeError:\n    R = 'TypeError'\n"),
@@ -178,7 +178,7 @@ SCOPE_TEMPLATES = [
     ("import-closure", "def f():\n    import math as m\n    def g():\n        return m.floor(2.5)\n    return g()\ntry:\n    R = f()\nexcept NameError:\n    R = 'NameError-family'\n"),
     ("dynamic-scope-leak", "x = 'global'\ndef P():\n    def F():\n        return x\n    return F()\ndef Q():\n    x = 'q-local'\n    def dummy():\n        return x\n    return P()\nR = Q()\n"),
     ("comp-var-declared-global", "x = 1\ndef f():\n    global x\n    r = [x for x in (5, 6)]\n    return x\nR = [f(), x]\n", "comp-var-declared-global"),
-    ("del-missing-global", "x = 1\ndef f():\n    global x\n    del x\nf()\ntry:\n    f()\n    R = 'no error'\nexcept NameError:\n    R = 'NameError'\n"),
+    ("del-missing-global", "x = 1\ndef f():\n    global x\n    del x\nf()\ntry:\n    f()\n    R = 'no error'\nexcept NameError:\n    R = 'NameError'\n", "del-missing-global"),
     ("handler-declared-global", "y = 0\ndef f():\n    global y\n    try:\n        raise ValueError(3)\n    except ValueError as y:\n        r = y.args\n    return r\nR = f()\n"),
     ("posonly-kwargs", "def f(p, /, **kw):\n    return (p, kw)\ntry:\n    R = f(1, p=2)\nexcept TypeError:\n    R = 'TypeError'\n", "posonly-name-in-kwargs"),
 ]
@@ -820,12 +820,29 @@ def comp_var_declared_global(src):
     return False
 
 
+def del_declared_global(src):
+    """syntactic feature of finding C03-F12: a function declares `global v` and deletes v"""
+    import ast
+    try:
+        tree = ast.parse(src)
+    except SyntaxError:
+        return False
+    for fn in ast.walk(tree):
+        if isinstance(fn, (ast.FunctionDef, ast.AsyncFunctionDef)):
+            decl = {v for n in own_nodes(fn) if isinstance(n, ast.Global) for v in n.names}
+            if any(isinstance(n, ast.Delete) and any(isinstance(t, ast.Name) and t.id in decl for t in n.targets) for n in own_nodes(fn)):
+                return True
+    return False
+
+
 def classify(c, reason):
     if c.payload["stream"] == "scope":
         f = list(c.payload.get("features", []))
         if "random-nesting" in f and comp_var_declared_global(c.payload["src"]):
             f.append("comp-var-declared-global")
-        for k in ("native-closure", "method-on-temporary", "comp-var-declared-global"):   # open findings
+        if "random-nesting" in f and del_declared_global(c.payload["src"]):
+            f.append("del-missing-global")
+        for k in ("native-closure", "comp-var-declared-global", "del-missing-global"):   # open findings
             if k in f:
                 return k
         return "scope:" + "+".join(f)
